@@ -157,23 +157,6 @@ theorem validObj_iff (s : JStr) : validObj s = true ↔ ClassName s := by
   · intro h
     exact ⟨startsWithBracket_false_of_not_mem (ClassName_no_bracket h), segs_of_ClassName h⟩
 
-theorem validClass_iff (s : JStr) : validClass s = true ↔ ClassName s ∨ s.head? = some LBRACKET := by
-  unfold validClass
-  by_cases hb : startsWithBracket s = true
-  · simp only [hb, if_true, true_iff]
-    exact Or.inr ((startsWithBracket_iff s).mp hb)
-  · simp only [hb, Bool.false_eq_true, if_false]
-    rw [segs_iff_ClassName]
-    constructor
-    · exact Or.inl
-    · intro h
-      rcases h with h | h
-      · exact h
-      · exact absurd ((startsWithBracket_iff s).mpr h) hb
-
-theorem validArr_iff (s : JStr) : validArr s = true ↔ s.head? = some LBRACKET :=
-  startsWithBracket_iff s
-
 /-- class names = `/`-joined identifiers (the form used in the property text) -/
 theorem ClassName_iff_joined (s : JStr) :
     ClassName s ↔ ∃ parts : List JStr, parts ≠ [] ∧ (∀ p ∈ parts, Ident p) ∧ s = [SLASH].intercalate parts := by
